@@ -59,6 +59,7 @@ def run(ck):
     for _ in range(40 * n):
         traces.append(dbgen.gen_regions_trace(rng))
     traces = [dbgen.with_lag(rng, t, 0.5) for t in traces]
+    traces += [dbgen.gen_failstop_revive_trace(rng) for _ in range(10 * n)]
     if not ok:
         return
     dbprops.run_db_property(ck, eng, traces, [], with_replicas=True, nontrivial=nontrivial)
